@@ -25,7 +25,7 @@ and the edits are undone (so that no later case sees them, should the library sh
 
 Key-order pass: a relation dict is a dict - two dicts with the same items are the same structure whatever the order in
 which their keys were inserted.  Every atom is built again with its keys inserted in other orders (reversed, 'name'
-last, version/arch swapped, the keys that carry a value first) and - PkgRelation.str reads the optional parts with
+last, the keys that carry a value first) and - PkgRelation.str reads the optional parts with
 dict.get - with the optional keys whose value is None left out (in canonical order, reversed); the atoms of the pair
 core in all 120 insertion orders of the five keys and all orders of 'name' + the keys that carry a value; ordered pairs
 over the triple core with independently chosen orders for the two atoms.  Then
@@ -233,7 +233,7 @@ def select_core(n_pairs, n_triples):
 # ------------------------------------------------------------------------------------------------
 # key insertion orders and repetition shapes
 
-NAMED_ORDERS = ("reversed", "name last", "version/arch swapped", "keys with a value first",
+NAMED_ORDERS = ("reversed", "name last", "keys with a value first",
                 "None-valued keys omitted", "None-valued keys omitted + reversed")
 PAIR_ORDERS = ("canonical", "reversed", "None-valued keys omitted + name last")
 REPEAT_SHAPES = ("a,a", "a|a", "a,b,a", "b,a,a", "a,a,b", "a|b|a", "a|a|b", "a,a,a", "a|a|a", "a|a,a", "a,a|a",
@@ -463,6 +463,10 @@ def exec_keys(case):
             bad.append((fam + "/restr/differs", s, s2))
     except Exception as e:
         bad.append((fam + "/restr/raises:%s" % type(e).__name__, s, "%s: %s" % (type(e).__name__, e)))
+    if bad:
+        # what the canonically ordered structure shows too is the ordinary case's finding
+        ordinary = set(sig for sig, _e, _o in exec_case({"rels": case["rels"]})[0])
+        bad = [b for b in bad if "rel" + b[0][len(fam):] not in ordinary]
     return bad, ("VIOLATION " if bad else "") + cls, ev
 
 
@@ -651,7 +655,7 @@ def unit_cost(u, tier):
     if u[0] == "sweep":
         return 80
     if u[0] == "keys":
-        return 176 * 5
+        return 176 * 4
     if u[0] == "keys-perm":
         return 130
     if u[0] == "keys-pairs":
